@@ -437,7 +437,7 @@ def rescale_unitary_rule(chk, repo, clause):
             if any(pol and fmt(c) == 'is(mask, (None))' for c, pol, _ in p.conds):
                 continue
             n += 1
-            r = p.ret
+            r = nf.unwiden(p.ret)       # an integer image may be promoted to floating point first: same values
             interp = [a for a in r.atoms(deep=False) if is_app(a, 'scipy.ndimage.map_coordinates') and a[2][0] == S('img')] \
                 if isinstance(r, Poly) else []
             masks = [a for a in r.atoms(deep=False) if is_app(a, 'setitem')] if isinstance(r, Poly) else []
